@@ -34,6 +34,9 @@ def run_k(ctx, kres):
     n2, ops2 = (8, 40) if ctx.quick else (120, 80)
     t2 = [Trace("objects%d" % i, gen.persist_history(ctx.seed * 49979687 + i, tables, ops2, ntok=3)) for i in range(n2)]
     v += k_suite(ctx, kres, "K14-objects", t2, in_projection, sig_of=sig_of)
+    # two processes: a re-initialisation by one process stays, whatever an older process (token loaded before) writes afterwards; a fresh process judges
+    from .. import gen2, ksuites
+    v += k_suite(ctx, kres, "K14-two-process-reinit", [Trace("two-process-reinit", gen2.c14_two_process_reinit(ctx.seed))], lambda m: False, direct=ksuites.expect_login_direct, shrink_budget=0)
     return v
 
 
